@@ -23,7 +23,7 @@ def grid(draw, unit, lo, hi):
 @st.composite
 def sched_specs(draw, quiet=True, adaptive=False, force_last=False,
                 empty_ok=False, all_quiet_ok=False, precisions=(None,),
-                max_procs=4, steps_ok=True):
+                max_procs=4, steps_ok=True, state_cond=False):
     precision = draw(st.sampled_from(list(precisions)))
     if precision is None:
         unit = 0.25
@@ -56,8 +56,15 @@ def sched_specs(draw, quiet=True, adaptive=False, force_last=False,
             cond = [draw(st.integers(0, 9)) >= 4 for _ in range(n)]
             if not all_quiet_ok or draw(st.integers(0, 3)) > 0:
                 cond.append(True)       # eventually runs
-        procs.append({'name': 'p%d' % i, 'ts': ts, 'ts_mode': mode,
-                      'cond': cond})
+        proc = {'name': 'p%d' % i, 'ts': ts, 'ts_mode': mode, 'cond': cond}
+        if quiet and state_cond and cond is None and \
+                draw(st.integers(0, 3)) == 0:
+            # condition read from the state (vivarium's _condition), driven
+            # by a toggler process
+            n = draw(st.integers(1, 6))
+            proc['cond_state'] = [draw(st.booleans()) for _ in range(n)] + \
+                [True]
+        procs.append(proc)
     if quiet and not all_quiet_ok and procs and \
             all(p['cond'] is not None for p in procs):
         procs[0]['cond'] = None         # C01: never everybody quiet forever
@@ -73,8 +80,11 @@ def sched_specs(draw, quiet=True, adaptive=False, force_last=False,
         calls[-1]['force'] = True
     t0 = draw(st.sampled_from([0, 0, 0, tval(draw(st.integers(1, 8)))]))
     nsteps = draw(st.integers(0, 2)) if steps_ok else 0
-    return {'t0': t0, 'precision': precision, 'emit_step': 1,
+    spec = {'t0': t0, 'precision': precision, 'emit_step': 1,
             'procs': procs, 'steps': nsteps, 'calls': calls}
+    if any(p.get('cond_state') for p in procs):
+        spec['toggle_ts'] = tval(draw(ks))
+    return spec
 
 
 # ------------------------------------------------------------------ execution
@@ -82,6 +92,8 @@ def sched_specs(draw, quiet=True, adaptive=False, force_last=False,
 def poll_budget(spec):
     procs = spec['procs']
     taus = [t for p in procs for t in p['ts']]
+    if spec.get('toggle_ts'):
+        taus.append(spec['toggle_ts'])
     mint = min(taus) if taus else 1.0
     total = sum(c['interval'] for c in spec['calls'])
     scripts = sum(len(p['ts']) + len(p['cond'] or []) for p in procs)
@@ -96,8 +108,18 @@ def build(spec, ctx, parallel=()):
                   'ts_mode': p['ts_mode'], 'cond': p['cond']}
         if p['name'] in parallel:
             params['_parallel'] = True
-        processes[p['name']] = kit.RecProcess(params)
         topology[p['name']] = {'own': ('own', p['name']), 'shared': ('shared',)}
+        if p.get('cond_state'):
+            params['_condition'] = ('flags', p['name'])
+            topology[p['name']]['flags'] = ('flags',)
+        processes[p['name']] = kit.RecProcess(params)
+    scripts = {p['name']: p['cond_state'] for p in spec['procs']
+               if p.get('cond_state')}
+    if scripts:
+        processes['toggler'] = kit.Toggler({
+            'name': 'toggler', 'run_id': ctx.run_id, 'scripts': scripts,
+            'time_step': spec.get('toggle_ts', 1.0)})
+        topology['toggler'] = {'flags': ('flags',)}
     steps = {}
     for i in range(spec.get('steps', 0)):
         name = 's%d' % i
